@@ -59,6 +59,8 @@ func guardOrWrapper(p *load.Program, f *ssa.Function, direct func(*ssa.Function)
 }
 
 func checkC04(p *load.Program, r *kit.Report) {
+	r.Rule("CANCEL-BEFORE-CONFIRM", "the confirmation stage of handleBlock lies behind a wasCancelled() == false test made after the receive loop", 1)
+	checkConfirmBehindCancelCheck(p, r, "CANCEL-BEFORE-CONFIRM")
 	importRules(p, r, "C16", "a download whose stream was cut, whose block did not verify or whose processor failed must be reported as failed: Run returns what the handler sent on Complete", 3, nil, "RESULT-FLOW")
 	importRules(p, r, "C16", "a cancelled download issues no confirmation: the downloader's state (cancelled / started / complete) decides who signals and whether the handler goes on, and a cancellation must not be overwritten by a later state change", 1, nil, "CHAN-BUDGET")
 	r.NotDecided = "correctness of the dependency's merkle tree/proof construction (that each emitted proof verifies): merkle_proof.MerkleTree is trusted; block contents as values."
